@@ -455,6 +455,10 @@ class History:
         elif op == "list":
             prog = f"(list_prog {g_policy(step.get('band'))} {g_keep(step)})"
             summ, kind = "lsum", "list"
+        elif op == "restore":
+            prog = f"(restore_prog {g_policy(step.get('band'))} {g_keep(step)})"
+            summ, kind = "rsum", "restore"
+            mode = 3
         elif op == "validate":
             hint = hint_from_trace(canon_trace(res.get("trace") or []), self.names, "Read")
             prog = f"(validate_prog {gallina_bool(step.get('skip', False))} {hint})"
